@@ -43,7 +43,7 @@ func (r *Runner) apiFacts(tx *bbolt.Tx, model project.Facts) project.Facts {
 		id := tok.Model(rid)
 		p, found, err := S.People.FindById(tx, rid)
 		if err != nil || !found {
-			f["ent/"+id+"/?find"] = fmt.Sprint(found, err)
+			f["ent/"+id+"/!find"] = fmt.Sprint(found, err)
 			continue
 		}
 		f["ent/"+id+"/name"] = tok.Model(p.Name)
@@ -56,7 +56,7 @@ func (r *Runner) apiFacts(tx *bbolt.Tx, model project.Facts) project.Facts {
 			f["ext/"+id+"/lead"] = fmt.Sprint(st.Lead)
 			f["ext/"+id+"/grade"] = tok.Model(st.Grade)
 			if st.Name != p.Name || ns(st.Nick) != ns(p.Nick) {
-				f["ext/"+id+"/?parentFieldsDiffer"] = st.Name
+				f["ext/"+id+"/!parentFieldsDiffer"] = st.Name
 			}
 		}
 		if l := S.People.GetRelatedEntitiesIdList(tx, rid, schema.FRep); len(l) > 0 {
@@ -78,7 +78,7 @@ func (r *Runner) apiFacts(tx *bbolt.Tx, model project.Facts) project.Facts {
 			viaCursor = append(viaCursor, string(c.Current()))
 		}
 		if list(viaCursor) != list(S.People.Links.GetLinks(tx, rid)) {
-			f["lnkPT/"+id+"/?cursor"] = list(viaCursor)
+			f["lnkPT/"+id+"/!cursor"] = list(viaCursor)
 		}
 		for _, rt := range tids {
 			a, b := S.People.Rc.GetLinkCounts(tx, []byte(rid), []byte(rt))
@@ -89,7 +89,7 @@ func (r *Runner) apiFacts(tx *bbolt.Tx, model project.Facts) project.Facts {
 				f["rcTP/"+tok.Model(rt)+"/"+id] = fmt.Sprint(*b)
 			}
 			if S.People.Links.IsLinked(tx, []byte(rid), []byte(rt)) != strings.Contains(","+f["lnkPT/"+id]+",", ","+tok.Model(rt)+",") {
-				f["lnkPT/"+id+"/?isLinked/"+tok.Model(rt)] = "disagrees"
+				f["lnkPT/"+id+"/!isLinked/"+tok.Model(rt)] = "disagrees"
 			}
 		}
 	}
@@ -155,7 +155,7 @@ func (r *Runner) apiFacts(tx *bbolt.Tx, model project.Facts) project.Facts {
 			viaCursor = append(viaCursor, string(c.Current()))
 		}
 		if list(viaCursor) != list(ids) {
-			f["sRoles/"+role+"/?cursor"] = list(viaCursor)
+			f["sRoles/"+role+"/!cursor"] = list(viaCursor)
 		}
 	})
 	_ = env
